@@ -389,6 +389,70 @@ func tameStars(k *kase) {
 	}
 }
 
+// pairCases: systematic formats with 2-4 conversions — every ordered pair of conversion kinds, each
+// with several arguments (numbers and strings for %c and %s, non-ASCII code points), plain, with '*'
+// widths between them and with '*' precisions of both signs — in byte and character mode.  What one
+// conversion does must not depend on its neighbours in the same call.
+func pairCases() []*kase {
+	n := func(x float64) arg { return arg{kind: 'n', x: x} }
+	st := func(s string) arg { return arg{kind: 's', s: s} }
+	pool := func(c string) []arg {
+		switch c {
+		case "c":
+			return []arg{n(228), n(246), n(8364), n(128512), n(65), st("äx"), st("x")}
+		case "s":
+			return []arg{st("abc"), st("é"), n(3.5)}
+		case "e", "E", "f", "g", "G":
+			return []arg{n(2.5), n(0.1 + 0.2), n(math.Inf(1))}
+		default:
+			return []arg{n(42), n(-5), n(9223372036854775808)}
+		}
+	}
+	var ks []*kase
+	add := func(chars bool, f string, as ...arg) {
+		ks = append(ks, &kase{op: "sprintf", origin: "pairs", chars: chars, format: f, args: append([]arg(nil), as...)})
+	}
+	for _, chars := range []bool{false, true} {
+		for _, c1 := range convs {
+			for _, c2 := range convs {
+				p1, p2 := pool(c1), pool(c2)
+				for i, a1 := range p1 {
+					for j, a2 := range p2 {
+						add(chars, "<%"+c1+"|%"+c2+">", a1, a2)
+						if (i+j)%3 == 0 {
+							add(chars, "<%*"+c1+"%-*"+c2+">", n(9), a1, n(-8), a2)
+						}
+						if (i+j)%3 == 1 && c1 != "c" && c2 != "c" {
+							// two '*' precisions in one format, every sign combination
+							for _, pr := range [][2]float64{{-1, -2}, {-1, 2}, {2, -1}, {3, 1}} {
+								add(chars, "<%.*"+c1+"|%.*"+c2+">", n(pr[0]), a1, n(pr[1]), a2)
+							}
+						}
+					}
+				}
+			}
+		}
+		// three and four conversions: all %c arrangements of numbers and strings, and mixed kinds
+		cs := pool("c")
+		for i := range cs {
+			for j := range cs {
+				add(chars, "%c%c%c", cs[i], cs[j], cs[(i+j+1)%len(cs)])
+				add(chars, "[%c %d %c %s]", cs[i], n(7), cs[j], st("z"))
+				add(chars, "%3c|%-3c|%c|%c", cs[j], cs[i], cs[(i+2)%len(cs)], cs[(j+3)%len(cs)])
+			}
+		}
+		for _, c1 := range convs {
+			for _, c2 := range convs {
+				for _, c3 := range []string{"c", "d", "s", "g"} {
+					add(chars, "%"+c1+" %"+c2+" %"+c3, pool(c1)[0], pool(c2)[1], pool(c3)[2])
+					add(chars, "%.*"+c1+"%c%.*"+c2+"%"+c3, n(-1), pool(c1)[1], n(246), n(-3), pool(c2)[0], pool(c3)[0])
+				}
+			}
+		}
+	}
+	return ks
+}
+
 // genBatches returns the case generators, one per batch (a batch is generated, run,
 // compared and dropped before the next one: the exhaustive grid does not fit in memory at once).
 func genBatches(o hx.Opts, r *hx.Rand) []func() []*kase {
@@ -423,6 +487,7 @@ func genBatches(o hx.Opts, r *hx.Rand) []func() []*kase {
 	}
 	bs = append(bs, func() []*kase {
 		ks := limitCases()
+		ks = append(ks, pairCases()...)
 		if !thorough {
 			// small systematic core: every conversion x every argument, no flags; every flag subset x conversion on a few arguments
 			for ci := range convs {
